@@ -216,12 +216,12 @@ def corpus(rng, cfg, index, of):
                     if p2 is not None:
                         parts.append(G.Part("file" if p2 == b"zz" else "field", "b", p2, filename="f.bin" if p2 == b"zz" else None,
                                             ctype="application/octet-stream" if p2 == b"zz" else None, bodyless=bodyless))
-                    yield parts, bnd, nl_name, (pre.replace(b"\n", nl) + nl if pre else b""), b""
+                    yield parts, bnd, nl_name, (pre.replace(b"\n", nl) + nl if pre else b""), b"", (b"" if n % 5 else b" " * 9)
     # empty form and part-less bodies
     if index == 0:
         for bnd in (b"b", b"bound"):
-            yield [], bnd, "crlf", b"", b""
-            yield [], bnd, "crlf", b"hello\r\n", b"bye"
+            yield [], bnd, "crlf", b"", b"", b""
+            yield [], bnd, "crlf", b"hello\r\n", b"bye", b" "
     for _ in range(cfg["random_bodies"]):
         bnd = G.random_boundary(rng)
         atoms = G.payload_atoms(bnd)
@@ -238,10 +238,11 @@ def corpus(rng, cfg, index, of):
                        ctype=rng.choice((None, "text/plain", "application/octet-stream; charset=utf-8")),
                        bodyless=rng.random() < 0.5, extra=extra)
             )
+        pad = rng.choice((b"", b"", b"", b" ", b"\t", b" " * 7, b" \t" * 5, b" " * 20))
         pre = rng.choice((b"", b"", b"preamble text" + nl, nl, b"--" + nl, LONG_PRE.replace(b"\n", nl) + nl,
                           b"p" * rng.randrange(1, 200) + nl + nl, nl.join(rng.choice(atoms) for _ in range(rng.randrange(2, 9))) + nl))
         epi = rng.choice((b"", b"", b"epilogue", nl + b"more"))
-        yield parts, bnd, nl_name, pre, epi
+        yield parts, bnd, nl_name, pre, epi, pad
 
 
 def run(shard, rec, rng):
@@ -260,8 +261,10 @@ def run(shard, rec, rng):
         },
     )
     cfg = TIERS[shard["_tier"]]
-    for parts, bnd, nl_name, pre, epi in corpus(rng, cfg, shard["index"], shard["of"]):
-        built = G.build(parts, bnd, G.NLS[nl_name], pre, epi)
+    for parts, bnd, nl_name, pre, epi, pad in corpus(rng, cfg, shard["index"], shard["of"]):
+        built = G.build(parts, bnd, G.NLS[nl_name], pre, epi, pad=pad)
+        if pad:
+            rec.observe("bodies_with_transport_padding")
         if built is None:
             rec.observe("generator_rejected_not_wellformed")
             continue
